@@ -236,6 +236,12 @@ impl TmpNodes {
             r is Ok ==> final(self).tv() == (TmpV { puts: old(self).tv().puts.insert(item, tnode_of(*data)), deleted: old(self).tv().deleted }),
             r matches Err(e) ==> (e is Io || e is Heed) && final(self).tv() == old(self).tv(),
     { unimplemented!() }
+    /// the put made under `current` is written back under `new`
+    #[verifier::external_body]
+    pub fn remap(&mut self, current: ItemId, new: ItemId)
+        ensures final(self).allocated() == old(self).allocated(), final(self).taken() == old(self).taken(), final(self).tv() == old(self).tv(),
+            final(self).rm() == (if current != new { old(self).rm().insert(current, new) } else { old(self).rm() })
+    { unimplemented!() }
     #[verifier::external_body]
     pub fn remove(&mut self, item: ItemId)
         ensures final(self).allocated() == old(self).allocated(), final(self).rm() == old(self).rm(), final(self).taken() == old(self).taken(), final(self).tv() == (TmpV { puts: old(self).tv().puts, deleted: old(self).tv().deleted.insert(item) })
